@@ -34,14 +34,14 @@ func init() {
 	})
 	property(&Property{
 		ID:          "C05",
-		Rules:       []string{"STATUS-TABLE", "TABLE-GUARD", "TWIRP-TABLE", "ENCODER-CLOSE", "TAIL-FLUSH", "PANIC-REACH-SERVE", "ERR-SAME-STATUS", "GRPC-TRAILER-VALUES", "ESCAPE-SET", "CODEC-LOOKUP-TOTAL", "POOL-RESET", "FWD-ERR-IDENTITY", "STATUS-BLOCK", "WEB-FLUSH-COMMITS"},
-		Decides:     "Decides the table-shaped and pairing-shaped parts of status fidelity: status tables equal the documented mapping and their guards are exact; the Twirp name table equals the Twirp spec; the base64 stream of gRPC-web-text is terminated; the grpc-message encoder writes its tail; the error encoders contain no reachable panic; code, message and details come from one status value derived from the handler's error and reach the gRPC trailers through the right encoders. Also: a pooled buffer that becomes the gRPC-web trailer frame is Reset after Get. Also: the proxy's error filter sets aside only nil / io.EOF / context.Canceled by identity (a Canceled *status* of the backend is relayed). Also: the gRPC status is written after the headers were flushed on every path, or else nothing is placed in a later block than the status.",
+		Rules:       []string{"STATUS-TABLE", "TABLE-GUARD", "TWIRP-TABLE", "ENCODER-CLOSE", "TAIL-FLUSH", "PANIC-REACH-SERVE", "ERR-SAME-STATUS", "GRPC-TRAILER-VALUES", "ESCAPE-SET", "CODEC-LOOKUP-TOTAL", "POOL-RESET", "FWD-ERR-IDENTITY", "STATUS-BLOCK", "WEB-FLUSH-COMMITS", "DISPATCH-PREFIX-ORDER"},
+		Decides:     "Decides the table-shaped and pairing-shaped parts of status fidelity: status tables equal the documented mapping and their guards are exact; the Twirp name table equals the Twirp spec; the base64 stream of gRPC-web-text is terminated; the grpc-message encoder writes its tail; the error encoders contain no reachable panic; code, message and details come from one status value derived from the handler's error and reach the gRPC trailers through the right encoders. Also: a pooled buffer that becomes the gRPC-web trailer frame is Reset after Get. Also: the proxy's error filter sets aside only nil / io.EOF / context.Canceled by identity (a Canceled *status* of the backend is relayed). Also: the gRPC status is written after the headers were flushed on every path, or else nothing is placed in a later block than the status. Also: the protocol dispatch tests the more specific content-type prefix first.",
 		NotDecided:  "encodeGrpcMessage's per-character output beyond 'no input byte is skipped', WebSocket close-frame payload limits, equality of details.",
 		Assumptions: commonAssumptions,
 	})
 	property(&Property{
 		ID:          "C06",
-		Rules:       []string{"ENCODER-CLOSE", "CARRY-OVER", "FRAME-AGREE", "READFULL-EOF", "FWD-CLOSESEND", "COMPRESS-FLAG", "READ-FAIL-NONNIL", "CLOSE-ONCE", "JSON-FRAME-TABLE", "WS-DATA-KINDS", "CLEAN-END-EOF-ONLY", "READ-DATA-FIRST", "CARRY-COUNTED", "POOL-FOREIGN", "SEND-FRAME-FLAG", "UNMARSHAL-RESETS", "EOF-NO-PHANTOM"},
+		Rules:       []string{"ENCODER-CLOSE", "CARRY-OVER", "FRAME-AGREE", "READFULL-EOF", "FWD-CLOSESEND", "COMPRESS-FLAG", "READ-FAIL-NONNIL", "CLOSE-ONCE", "JSON-FRAME-TABLE", "WS-DATA-KINDS", "CLEAN-END-EOF-ONLY", "READ-DATA-FIRST", "CARRY-COUNTED", "POOL-FOREIGN", "SEND-FRAME-FLAG", "UNMARSHAL-RESETS", "EOF-NO-PHANTOM", "DISPATCH-PREFIX-ORDER"},
 		Decides:     "Decides only three structural necessary conditions of 'no lost byte': the gRPC-web-text byte stream is terminated; bytes a stream codec read past the current message are saved on every path and handed to the next read; the gRPC frame writer and reader (and the gRPC-web trailer frame) agree on header length, offsets and byte order. Also: a proxied half-close is sent only after a clean inbound end; a gRPC message is decompressed iff its own flag byte is set; a failed transport read never yields a nil error. Also: the compressing writer is closed once per message (a second Close returns it to its pool twice and two streams share it). Also: the JSON stream codec's framing decisions - where a message ends - follow JSON's lexical structure (JSON-FRAME-TABLE). Also: the WebSocket stream reads text and binary data frames alike; a read error is taken for a clean end only when it is io.EOF itself. Also: the proto codec never decodes with the Merge option (no merged messages on a reused destination). Also: the end of an HTTP request stream is reported as io.EOF, never as one more (empty) message.",
 		NotDecided:  "and this is most of the property: sequence equality, fragmentation invariance, truncation behaviour, phantom/dropped messages at EOF, WebSocket end-of-stream.",
 		Assumptions: commonAssumptions,
